@@ -176,13 +176,20 @@ func genCase(t *rapid.T) Case {
 			case r < 9:
 				// metadata of both kinds set while incomplete, read back after completion
 				val := rapid.SliceOfN(rapid.Byte(), 0, 6).Draw(t, "val")
+				which := rapid.IntRange(1, 3).Draw(t, "mdkinds") // bit 0: non-movable, bit 1: movable
+				if which&1 != 0 {
+					c.Ops = append(c.Ops, Op{K: "setmd", Key: op.Key, MD: 1, Data: val})
+					i++
+				}
+				if which&2 != 0 {
+					c.Ops = append(c.Ops, Op{K: "setmd", Key: op.Key, MD: 0, Data: val, Scope: scopeIncomplete})
+					i++
+				}
 				c.Ops = append(c.Ops,
-					Op{K: "setmd", Key: op.Key, MD: 1, Data: val},
-					Op{K: "setmd", Key: op.Key, MD: 0, Data: val, Scope: scopeIncomplete},
 					Op{K: "complete", Key: op.Key},
 					Op{K: "getmd", Key: op.Key, MD: 1},
 					Op{K: "getmd", Key: op.Key, MD: 0, Scope: scopeComplete})
-				i += 5
+				i += 3
 			}
 		}
 	}
@@ -715,6 +722,16 @@ func (r *runner) observe(where string) string {
 		} else if err != nil || sz != int64(len(b.data)) {
 			return fmt.Sprintf("Stat differs from the model after %s (%s: store %d err %v, model %d)", where, k, sz, err, len(b.data))
 		}
+		mds, err := r.st.ListMetadata(k)
+		if b == nil {
+			if classify(err) != eNotExist {
+				return fmt.Sprintf("ListMetadata differs from the model after %s (%s: err %v, model: not in store)", where, k, err)
+			}
+		} else if err != nil {
+			return fmt.Sprintf("ListMetadata differs from the model after %s (%s: err %v, model: in store)", where, k, err)
+		} else if msg := compareMD(mds, b.md); msg != "" {
+			return fmt.Sprintf("ListMetadata differs from the model after %s (%s: %s)", where, k, msg)
+		}
 	}
 	for i, sl := range r.slots {
 		if sl.f == nil {
@@ -804,7 +821,7 @@ func TestProp(t *testing.T) {
 	pbt.Main(t, pbt.Spec{
 		ID: "C08",
 		Rule: "part model: histories of <=80 generated steps over 2-5 keys on a memory.Store of capacity 16-64 bytes: Create (reservations 0..capacity+4, mostly 1/3-2/3 of the capacity), MarkComplete, Open, Delete, Ban/UnbanEviction, Has, Stat, Set/Get/Delete/ListMetadata (one movable, one non-movable kind), scoped calls through Any/Complete/Incomplete views, and Read/ReadAt/Write/WriteAt/Seek/Size on up to 6 handles kept from earlier Create/Open calls; " +
-			"every call's result class (nil, ErrExist, ErrNotExist, ErrOutOfScope, ErrNoSpace, ErrEvicted) and value is compared with a reference model (reserved-size accounting, LRU list of complete unbanned blobs, per-generation byte content with the C12 file model); after every step List per scope, Has and Stat of every key and Size of every kept handle are compared; a handle whose generation was evicted or deleted must answer ErrEvicted / Size -1 and transfer 0 bytes, also after the key was re-created; at the end every remaining blob's bytes are compared and the LRU order is drained by forced evictions; " +
+			"every call's result class (nil, ErrExist, ErrNotExist, ErrOutOfScope, ErrNoSpace, ErrEvicted) and value is compared with a reference model (reserved-size accounting, LRU list of complete unbanned blobs, per-generation byte content with the C12 file model); after every step List per scope, Has, Stat and ListMetadata of every key and Size of every kept handle are compared; a handle whose generation was evicted or deleted must answer ErrEvicted / Size -1 and transfer 0 bytes, also after the key was re-created; at the end every remaining blob's bytes are compared and the LRU order is drained by forced evictions; " +
 			"part stress: 1-4 reader and 0-2 writer goroutines on handles race with a creator that forces evictions, deletes and re-creates the same keys with other bytes; invariant: every read returns exactly the bytes of the generation it first saw or ErrEvicted, and ErrEvicted is permanent; " +
 			"non-trivial (model) = a generated handle operation ran on a stale handle after its key was re-created; non-trivial (stress) = a reader saw its handle turn to ErrEvicted after reading bytes and the key was re-created meanwhile; distinct by case hash",
 		Assumptions: []string{
